@@ -153,7 +153,10 @@ def in_child(fn, timeout=90):
 
 
 def close_lists(a, b, tol=1e-4):
-    return a is not None and b is not None and len(a) == len(b) and all(abs(x - y) <= tol * (1 + abs(x)) for x, y in zip(a, b))
+    """optimal values per priority; from the third priority on the values sit on two or more constraints of the
+    kind 'earlier objective <= its optimum' that IPOPT holds to about sqrt(tol): ten times the tolerance there"""
+    return a is not None and b is not None and len(a) == len(b) and all(
+        abs(x - y) <= tol * (10 if i >= 2 else 1) * (1 + abs(x)) for i, (x, y) in enumerate(zip(a, b)))
 
 
 def run(ctx):
@@ -295,7 +298,7 @@ def run(ctx):
                         ctx.violation("pair/" + name.split("/")[0] + "-unsolved", {"case": c, "pair": name, "reference": ref, "other": o},
                                       what="equivalent formulations disagree (%s): one solves every priority (%s), the other stops (%s)" % (name, ref, o))
                     continue
-                j = next((i for i, (x, y) in enumerate(zip(ref, o)) if abs(x - y) > 1e-4 * (1 + abs(x))), None) if len(ref) == len(o) else None
+                j = next((i for i, (x, y) in enumerate(zip(ref, o)) if abs(x - y) > 1e-4 * (10 if i >= 2 else 1) * (1 + abs(x))), None) if len(ref) == len(o) else None
                 traded = False
                 if j is not None and j > 0:
                     # the side with the better value at priority j paid for it at an earlier priority, by an amount
